@@ -30,4 +30,5 @@ def run(ctx, rep):
     for inst in ctx.instances(with_corpus=False):
         rep.ok("TC", "%s type-checks" % inst.label)
     rep.floor("TC", 30, "grammars")
+    lrules.traversal_rule(ctx, rep)
     common.corpus_note(ctx, rep)
